@@ -240,6 +240,22 @@ def oracle_offs(ctx, s, im):
             ctx.violation("impl-oracle", "the linear RF kick does not use tan(angle)", case=s.describe(),
                           observed=float(t), expected=math.tan(a), sig=dict(kind="rf", clause="tan-angle"))
             ok = False
+    else:
+        # the sinusoidal model itself, evaluated in double precision on the implementation's axis
+        phase, ampl = (s.calc if s.calc else (float(sync), 1.0))
+        d1, sc1 = float(ax[5]), float(parse_c(im["scales"][0][1]))
+        for x in range(n):
+            arg = float(q[x]) * float(bl) + phase
+            exp = s.rfpar[0] * (-ampl * s.rfpar[1] * math.sin(arg) + s.rfpar[3]) / d1 / sc1
+            cond = abs(s.rfpar[0]) * (abs(ampl * s.rfpar[1] * math.sin(arg)) + abs(s.rfpar[3])) / d1 / sc1
+            # the float argument q*bl2phase+phase carries 3 roundings; d sin <= d arg
+            argerr = 3 * 2.0 ** -24 * (abs(float(q[x]) * float(bl)) + abs(phase))
+            tol = 16 * 2.0 ** -24 * cond + abs(s.rfpar[0] * ampl * s.rfpar[1]) / d1 / sc1 * argerr
+            if isinstance(rf_i[x], str) or abs(float(rf_i[x]) - exp) > tol:
+                ctx.violation("impl-oracle", "sinusoidal RF kick is not revpart*(-ampl*V_RF*sin(q*bl2phase+phase)+V0)/delta_E/scale", case=dict(s.describe(), calc=s.calc),
+                              observed=dict(x=x, offset=str(rf_i[x])), expected=exp, sig=dict(kind="rf", clause="sin-offsets"))
+                ok = False
+                break
     # zero bin: coordinate at the (fractional) index zerobin is 0, by linear interpolation of at()
     for k, (zb, dl, mn) in enumerate([(ax[0], ax[1], ax[2]), (ax[4], ax[5], ax[6])]):
         if isinstance(zb, str):
